@@ -75,11 +75,23 @@ if [ -x bin/renamelocals ] && bin/renamelocals "$scratch/repo" >/dev/null 2>&1; 
     nsilent=$((nsilent+1))
   fi
 fi
+# on top of the renaming: a deferred call, a leading statement and an empty block in every function body / if body
+for mode in defer stmt block; do
+  [ -x bin/neutral ] || break
+  files=$(cd "$scratch/repo" && find syncer pkg cmd config -name '*.go' ! -name '*_test.go' ! -name '*.pb.go' 2>/dev/null)
+  (cd "$scratch/repo" && "$V/bin/neutral" $mode $files) >/dev/null 2>&1 || continue
+  ntotal=$((ntotal+1))
+  if bin/gunyucheck -property "$id" -tier quick -verif "$scratch/verif" -repo "$scratch/repo" 2>/dev/null | grep -q "^VIOLATION property=$id"; then
+    nalarm="$nalarm insert-$mode-everywhere"
+  else
+    nsilent=$((nsilent+1))
+  fi
+done
 echo "neutral controls: silent on $nsilent of $ntotal behaviour-preserving rewrites${nalarm:+; ALARMED ON:$nalarm}"
 if command -v jq >/dev/null 2>&1 && [ -f "$V/evidence/$id.json" ]; then
   jq --argjson t "$total" --argjson f "$fired" --argjson s "$skipped" --arg m "$missed" \
      --argjson nt "$ntotal" --argjson ns "$nsilent" --arg na "$nalarm" \
-     '.coverage.positive_controls = {applied: $t, reported: $f, skipped_not_applicable: $s, not_reported: $m, note: "each control is a recorded breaking change (selftest/mutants, seeded/) applied to a scratch copy of /repo; report only, never part of the verdict"} | .coverage.neutral_controls = {applied: $nt, silent: $ns, alarmed_on: $na, note: "behaviour-preserving rewrites of a scratch copy (selftest/neutral patches; every local variable, parameter and result renamed): the rules must stay silent; report only"}' \
+     '.coverage.positive_controls = {applied: $t, reported: $f, skipped_not_applicable: $s, not_reported: $m, note: "each control is a recorded breaking change (selftest/mutants, seeded/) applied to a scratch copy of /repo; report only, never part of the verdict"} | .coverage.neutral_controls = {applied: $nt, silent: $ns, alarmed_on: $na, note: "behaviour-preserving rewrites of a scratch copy (selftest/neutral patches; every local variable, parameter and result renamed; then a deferred call, a leading statement and an empty block inserted into every function / if body, cumulatively): the rules must stay silent; report only"}' \
      "$V/evidence/$id.json" > "$scratch/ev.json" && cp "$scratch/ev.json" "$V/evidence/$id.json"
 fi
 exit $rc
